@@ -42,7 +42,7 @@ def chunks(tier, N):
         out.append(dict(n=L + 4, g=-1, fam="comment"))
     #   linecomment: '//' + body over {a, blank, ?, /, backslash, newline} (splices of both spellings inside and after a comment)
     #   quoted: a quote + body over {a, backslash, ?, /, the two quotes, newline} (escapes spelled with trigraphs, splices)
-    for L in ((4, 5) if tier == "quick" else (4, 5, 6, 7)):
+    for L in ((4, 5, 6, 7) if tier == "quick" else (4, 5, 6, 7, 8, 9)):
         for c0 in LC_BODY:
             out.append(dict(n=L + 2, g=-1, fam="linecomment", first=c0))
     for L in ((3, 4, 5) if tier == "quick" else (3, 4, 5, 6)):
